@@ -37,7 +37,7 @@ func HarnessC08Offered() {
 	d.DeletionTimestamp = &now
 	s.Put(d)
 
-	crdState := zz.Choose("crd.state", 3) // absent, ours, controlled by another owner
+	crdState := zz.Choose("crd.state", 4) // absent, ours, controlled by another owner, ours and already terminating
 	foreign := zz.Str("foreign.uid")
 	zz.Assume(foreign != zzXRDUID)
 	zz.Assume(foreign != "")
@@ -49,6 +49,10 @@ func HarnessC08Offered() {
 			zz.Cover("foreign-crd")
 		}
 		crd.OwnerReferences = []metav1.OwnerReference{{APIVersion: "apiextensions.crossplane.io/v1", Kind: "CompositeResourceDefinition", Name: zzXRDName, UID: types.UID(uid), Controller: ptr.To(true)}}
+		if crdState == 3 {
+			crd.Finalizers = []string{"customresourcecleanup.apiextensions.k8s.io"}
+			crd.DeletionTimestamp = &now
+		}
 		s.Put(crd)
 	}
 	nClaims := zz.Choose("claims", 3)
@@ -66,7 +70,7 @@ func HarnessC08Offered() {
 
 	eng := &zzEngine{s: s, running: true}
 	crdExisted := crdState != 0
-	crdWasOurs := crdState == 1
+	crdWasOurs := crdState == 1 || crdState == 3
 	claimsBefore := zzClaims(s)
 	s.OnMutate = func() {
 		if crdExisted && crdWasOurs && !s.Exists("apiextensions.k8s.io", "CustomResourceDefinition", "", zzClaimCRDName) {
